@@ -47,6 +47,12 @@ void h_set_tk3(void)
 void h_set_key_inner(void)
 {
     Skinny128Key_t *ks; const void *key; unsigned key_size; const void *tweak;
+#ifdef VERIF_CASE_LEN
+    key_size = VERIF_CASE_LEN;
+#endif
+#ifdef VERIF_CASE_TWEAK
+    __CPROVER_assume(VERIF_CASE_TWEAK ? tweak != 0 : tweak == 0);
+#endif
     skinny128_set_key_inner(ks, key, key_size, tweak);
     VCANARY();
 }
